@@ -16,8 +16,8 @@ its arguments (so inconsistent / adversarial comparators are covered); every cal
 `cycle` is modelled twice: `cycle` (element rotation, used by the sort) and `cycleBytes` (the byte-level
 program with the 256-byte `tmp` chunking); `Proofs/SortCycle.lean` proves the second equal to the first.
 
-`Fixes` selects the code as it stands in the tree (`unrepaired`) or as repaired by `fixes/qsort_s-*.diff`;
-`current` is the ONE definition to flip when the fixes are applied to /repo.
+`Fixes` selects the code as it stood in the tree (`unrepaired`) or as repaired by `fixes/qsort_s-*.diff`
+(one switch per diff); `current` is the ONE definition to flip when a fix is applied to /repo.
 -/
 namespace SafeC.Sort
 
@@ -27,12 +27,17 @@ structure Fixes where
   ctz64 : Bool
   /-- known object size: `nmemb > basebos / size` (repaired); `false`: `nmemb * size` computed in `size_t` (wraps) -/
   ovf : Bool
+  /-- `pntz` tests `p[1] != 0` itself before it answers `64 + ntz(p[1])` (repaired, `fixes/qsort_s-pntz-gap-64.diff`);
+      `false`: it computes `r = 64 + ntz(p[1])` and takes `r == 64` for "no bit set in `p[1]`", which an odd `p[1]` gives too -/
+  pntzGap : Bool
 deriving DecidableEq, Repr
 
-def unrepaired : Fixes := ⟨false, false⟩
-def allFixed : Fixes := ⟨true, true⟩
-/-- the code of the tree the check runs against -/
-def current : Fixes := allFixed
+def unrepaired : Fixes := ⟨false, false, false⟩
+/-- the first two repairs (whole-word `ntz`, unwrapped product) without the `pntz` one -/
+def ntzOvfFixed : Fixes := ⟨true, true, false⟩
+def allFixed : Fixes := ⟨true, true, true⟩
+/-- the code of the tree the check runs against (`allFixed` once `fixes/qsort_s-pntz-gap-64.diff` is applied) -/
+def current : Fixes := ntzOvfFixed
 
 inductive Fault
   | idx (i : Nat)     -- element index ≥ nmemb dereferenced
@@ -152,8 +157,11 @@ def ntz (fx : Fixes) (x : UInt64) : Nat := if fx.ctz64 then ctz64 x else ctz32 x
 def pntz (fx : Fixes) (p : PV) : Nat :=
   let r := ntz fx (p.lo - 1)
   if r ≠ 0 then r else
-  let r := 64 + ntz fx p.hi
-  if r ≠ 64 then r else 0
+  if fx.pntzGap then
+    (if p.hi ≠ 0 then 64 + ntz fx p.hi else 0)          -- `if (p[1] != 0) return 8 * sizeof(size_t) + ntz(p[1]); return 0;`
+  else
+    let r := 64 + ntz fx p.hi
+    if r ≠ 64 then r else 0
 
 /-! ## sift / trinkle -/
 
